@@ -61,6 +61,7 @@ def shards(tier, seed):
     out.append(("threads",))
     out.append(("biglimit",))
     out.append(("rawbytes",))
+    out += [("python-O", ("tables", 5, b["k"], b["d"])), ("python-O", ("tables", 8, b["k"], b["d"])), ("python-O", ("roundtrip",))]
     return out
 
 
@@ -310,6 +311,10 @@ def thread_family(r, tier):
 
 def run_shard(desc, tier):
     r = R()
+    if desc[0] == "python-O":
+        # the same family in an interpreter that runs with assert statements compiled away
+        from ..core import fresh
+        return fresh.optimized(__name__, tuple(desc[1]), tier)
     if desc[0] == "threads":
         thread_family(r, tier)
         return r
@@ -410,6 +415,10 @@ def finish(merged, tier):
 
 
 def replay(w):
+    import sys as _sys
+    if w.get("optimize") and not _sys.flags.optimize:
+        from ..core import fresh
+        return fresh.replay_optimized(__name__, w)
     r = R()
     if "threads" in w:
         thread_family(r, "quick")
